@@ -330,7 +330,7 @@ def exec_probe(rec):
             X = np.array(pts, dtype=float).T / S
         N = X.shape[1]
         e = {'a': 'Probe', 'op': op if op != 'probes_qp' else 'probes', 'pts': [list(map(int, q)) for q in pts],
-             'cells': [], 'rows': [], 'vals': [], 'phis': [], 'ref': [], 'err': '', 'pscols': [], 'psvals': []}
+             'cells': [], 'rows': [], 'vals': [], 'phis': [], 'ref': [], 'ferr': '', 'err': '', 'pscols': [], 'psvals': []}
         if op == 'probes_qp':
             e['tags'] = {'qp': 1}
         if op == 'interpolator_nd':
@@ -338,8 +338,13 @@ def exec_probe(rec):
                 continue                                                    # trailing axes: scalar elements only
             e['op'] = 'interpolator'
 
+        cells, ferr = guarded(lambda: np.asarray(_find(m, X)), 20)
+        if ferr:                                                            # the finder itself raised
+            e['ferr'] = ferr
+            events.append(e)
+            continue
+
         def observe():
-            cells = np.asarray(_find(m, X))
             if op in ('probes', 'probes_qp'):
                 Pm = b.probes(X).tocsr()
                 Pm.sum_duplicates()
@@ -464,6 +469,13 @@ def run(ctx):
             for variant in range(2 if th else 1):
                 p, t = probe_meshes(meta['kind'], prng, variant + len(name) + ctx.seed)
                 recs.append(probe_recipe(meta['kind'], p, t, name, prng, 'probe-mesh', ctx.tier))
+        # P1 on simplices has an exact rational oracle (P1Exact): drive it on the graded / anisotropic / random
+        # meshes of the finder scenarios as well
+        p1 = {'line': 'ElementLineP1', 'tri': 'ElementTriP1', 'tet': 'ElementTetP1'}
+        extra = [(k, p, t, fam) for (k, p, t, fam) in meshes
+                 if k in p1 and np.abs(p).max() <= 20 and np.asarray(t).shape[1] <= 40]
+        for (k, p, t, fam) in extra[::1 if th else 3]:
+            recs.append(probe_recipe(k, p, t, p1[k], prng, fam, ctx.tier))
         scs = procs.map(_scen, [(f'C14-{k}', r) for k, r in enumerate(recs)])
         ctx.validate('TraceC14', scs)
         out_file = fut.result()
